@@ -19,7 +19,7 @@ use std::{
     sync::atomic::{AtomicUsize, Ordering},
 };
 
-use parking_lot::RwLock;
+use crate::sync_compat::RwLock;
 use serde::{Deserialize, Serialize};
 
 use crate::TensorData;
